@@ -396,6 +396,8 @@ def inherit_props(prop, P, results):
         if dialect == "sqlite":
             if k.startswith(("MysqlQueryBuilder", "PostgresQueryBuilder", "MysqlTypes", "PostgresTypes")):
                 return False
+            if "/backend/mysql/" in k or "/backend/postgres/" in k or "/extension/postgres/" in k or "/extension/mysql/" in k:
+                return False     # raw quoting sites (unit ident) of the other backends
             m = re.match(r"(?:QueryBuilder|TableBuilder|IndexBuilder|ForeignKeyBuilder|EscapeBuilder|TableRefBuilder|QuotedBuilder)::([a-z_0-9]+)", k)
             if m and m.group(1) in ovr:
                 return False
